@@ -37,7 +37,11 @@ def _cases(tier, seed):
     yield {'privacy': 0, 'project': 'two_roots', 'rules': ['HIDDEN:beta']}
     yield {'privacy': 0, 'project': 'two_roots', 'rules': ['HIDDEN:alpha.A', 'PRIVATE:beta']}
     yield {'privacy': 0, 'project': 'two_roots', 'rules': ['PRIVATE:gamma._inner.helper', 'PRIVATE:beta.B.m', 'PUBLIC:gamma._inner']}
+    yield {'privacy': 0, 'project': 'two_roots', 'rules': ['HIDDEN:gamma.widgets.Sealed', 'PRIVATE:gamma.widgets.P*', 'HIDDEN:gamma._inner']}
     yield {'privacy': 0, 'project': 'B', 'extra': ['--sidebar-expand-depth', '3']}
+    # only some objects are written (--html-subject), one of them sits inside a hidden module
+    yield {'privacy': 0, 'project': 'B', 'rules': ['HIDDEN:pk._private', 'HIDDEN:pk.mod.Hid'],
+           'extra': ['--html-subject', 'pk._private.PC', '--html-subject', 'pk.mod.Base', '--html-subject', 'pk.mod.Hid.meth', '--make-intersphinx', '--make-html']}
     yield {'privacy': 1, 'project': 'B', 'extra': ['--theme', 'readthedocs']}
     yield {'privacy': 4, 'project': 'B', 'extra': ['--theme', 'base', '--sidebar-toc-depth', '1']}
 
@@ -62,7 +66,10 @@ TWO_ROOTS = {'alpha.py': '"""Alpha. See L{beta.B}."""\nclass A: pass\n', 'beta.p
              'gamma/__init__.py': '"""Gamma."""\n', 'gamma/__main__.py': '"""Entry point."""\ndef main(): "doc"\n',
              'gamma/_inner.py': 'def helper(): "doc"\nclass _P:\n    def pub(self): "doc"\n',
              # namesakes (helper, m, main) spread over modules, so that rules can make some of them private
-             'gamma/tools.py': 'def helper(): "doc"\ndef m(): "doc"\ndef main(): "doc"\n'}
+             'gamma/tools.py': 'def helper(): "doc"\ndef m(): "doc"\ndef main(): "doc"\n',
+             # a base from an external library, a private class in between, public classes below it
+             'gamma/widgets.py': 'import extlib\nclass _Hook(extlib.Widget):\n    "doc"\nclass Button(_Hook):\n    "doc"\nclass Panel(extlib.Widget):\n    "doc"\nclass _Only(extlib.Other):\n    "doc"\n'
+                                 'class Sealed:\n    "hidden by a rule in some cases"\n    def inner(self): "doc inner words"\n    class Deep:\n        def deepest(self): "doc"\n'}
 
 
 def check_site(case, which):
@@ -145,6 +152,9 @@ def check_site(case, which):
                     fails.append({'observed': f'hidden {n} has an inventory entry', 'required': 'none', 'class': 'hidden-inv', 'hidden': n})
                 if n in idx['search_names']:
                     fails.append({'observed': f'hidden {n} has a search document', 'required': 'none', 'class': 'hidden-search', 'hidden': n})
+                for f, refs in idx.get('lunr_refs', {}).items():
+                    if refs is not None and n in refs:
+                        fails.append({'observed': f'hidden {n} is a document of the search index {f}', 'required': 'no search entry', 'class': 'hidden-lunr:' + f, 'hidden': n})
             visible_names = {o.name for o in objs.values() if _vis(o)} | {n for n, o in objs.items() if _vis(o)}
             # (classIndex.html shows a hidden *base* of a visible class as a plain name node, exactly like a base from an
             #  external library: source text about the visible subclass, see DESIGN.md C12 - not an entry for the hidden class)
@@ -179,6 +189,20 @@ def check_site(case, which):
                     fails.append({'observed': f'nameIndex.html: the entry listing {[o.fullName() for o in targets]} (private: {[_priv(o) for o in targets]}) '
                                               f'has class {e["class"]!r}', 'required': 'marked private exactly when all its objects are private',
                                   'class': 'nameindex-marking'})
+            # the class hierarchy: whatever sits inside a node marked private is folded away with it, so no class that is not private
+            # may be listed inside one
+            for e in idx['pages'].get('classIndex.html', {}).get('entries', []):
+                if e['tag'] != 'li' or 'private' not in e['class'].split():
+                    continue
+                for h in e.get('hrefs', []):
+                    r = site.resolve('classIndex.html', h)
+                    if r is None:
+                        continue
+                    full = r[0] + ('#' + r[1] if r[1] else '')
+                    for n, o in objs.items():
+                        if _vis(o) and urllib.parse.unquote(o.url) == full and not _priv(o):
+                            fails.append({'observed': f'classIndex.html: public {n} is listed inside a node marked private ({e.get("first_text") or e.get("label")!r})',
+                                          'required': 'only private objects carry (or sit under) the private marker', 'class': 'classindex-folded'})
             # the search document of a private object says so (the search page leaves private results out unless asked)
             for n, o in objs.items():
                 if _vis(o) and n in idx['search_privacy'] and (idx['search_privacy'][n] == 'PRIVATE') != (o.privacyClass is model_privacy_private()):
